@@ -86,17 +86,16 @@ def flex_layout(context, box, bottom_space, skip_stack, containing_block, page_i
     percent.resolve_percentages(parent_box, containing_block)
     block.block_level_width(parent_box, containing_block)
     children = sorted(box.children, key=lambda item: item.style['order'])
-    original_skip_stack = skip_stack
     if skip_stack is not None:
         (skip, skip_stack), = skip_stack.items()
         if box.style['flex_direction'].endswith('-reverse'):
             children = children[:skip + 1]
+            first = 0
         else:
             children = children[skip:]
-        skip_stack = skip_stack
+            first = skip
     else:
-        skip, skip_stack = 0, None
-    child_skip_stack = skip_stack
+        first, skip, skip_stack = 0, 0, None
 
     if row_gap == 'normal':
         row_gap = 0
@@ -130,6 +129,8 @@ def flex_layout(context, box, bottom_space, skip_stack, containing_block, page_i
     if parent_box.margin_top != 'auto':
         position_y += parent_box.margin_top
     for index, child in enumerate(children):
+        # Skip stack is only for the child where the previous page ended.
+        child_skip_stack = skip_stack if first + index == skip else None
         if not child.is_flex_item:
             # Absolute child layout: create placeholder.
             if child.is_absolutely_positioned():
@@ -272,9 +273,6 @@ def flex_layout(context, box, bottom_space, skip_stack, containing_block, page_i
         child.hypothetical_main_size = max(
             min_size, min(child.flex_base_size, max_size))
 
-        # Skip stack is only for the first child.
-        child_skip_stack = None
-
     # 4 Determine the main size of the flex container using the rules of the formatting
     # context in which it participates.
     if main == 'width':
@@ -295,7 +293,7 @@ def flex_layout(context, box, bottom_space, skip_stack, containing_block, page_i
     line = []
     line_size = 0
     main_size = getattr(box, main)
-    for i, child in enumerate(children, start=skip):
+    for i, child in enumerate(children, start=first):
         if not child.is_flex_item:
             continue
         line_size += child.hypothetical_main_size + child.main_outer_extra
@@ -893,14 +891,7 @@ def flex_layout(context, box, bottom_space, skip_stack, containing_block, page_i
                     page_is_empty = False
                     box.children.append(new_child)
                     if child_resume_at is not None:
-                        if original_skip_stack:
-                            first_level_skip, = original_skip_stack
-                        else:
-                            first_level_skip = 0
-                        if resume_at:
-                            resume_index, = resume_at
-                            first_level_skip += resume_index
-                        resume_at = {first_level_skip + index: child_resume_at}
+                        resume_at = {index: child_resume_at}
                 if resume_at:
                     break
 
